@@ -133,7 +133,8 @@ pub fn build(mask: u32, network: u8, set_rank: usize) -> tir::Tx {
         tx.collateral.push(tir::Collateral { utxos: tir::Expression::UtxoSet([c].into_iter().collect()) });
     }
     if has(mask, "signers") {
-        tx.signers = Some(tir::Signers { signers: vec![tir::Expression::Bytes(cred(4))] });
+        // four of them, not in ascending order: a set-like field whose order has to be the same on every compilation
+        tx.signers = Some(tir::Signers { signers: [4u8, 2, 9, 7].iter().map(|k| tir::Expression::Bytes(cred(*k))).collect() });
     }
     if has(mask, "withdrawal") {
         tx.adhoc.push(adhoc(
